@@ -113,3 +113,27 @@ func ZZTextTruncatedSet() {
 	rt.Assert("c11-connection-closed-once", cl.Closed == 1 && closers[0].N == 1 && closers[1].N == 1)
 	rt.Assert("c11-few-reads-after-eof", cl.EOFReads <= 4)
 }
+
+// ZZTextManyLines (C11): many short lines (empty, blank, unknown words) in a row: each is
+// answered or ignored in constant stack space -- the parser does not nest one call per line.
+func ZZTextManyLines() {
+	n := rt.Param("lines", 200)
+	line := [][]byte{[]byte("\r\n"), []byte(" \r\n"), []byte("x\r\n"), []byte("\n")}[rt.Choice("line", 4)]
+	var in []byte
+	for i := 0; i < n; i++ {
+		in = append(in, line...)
+	}
+	in = append(in, []byte("version\r\n")...)
+	cl := &Client{In: in, EOF: true, MaxRead: 16} // the lines trickle in: the socket is read while they are being parsed
+	h1 := model.NewHandler(&model.Store{}, 1700000000)
+	closers := []*Closer{{}, {}}
+	rd := bufio.NewReader(cl)
+	wr := bufio.NewWriter(cl)
+	s := server.Default([]io.Closer{cl, closers[0], closers[1]}, textprot.NewTextParser(rd), orcas.L1Only(h1, nil, textprot.NewTextResponder(wr)))
+	s.Loop()
+	rt.Reach("loop-returned")
+	rt.Assert("c11-connection-closed-once", cl.Closed == 1 && closers[0].N == 1 && closers[1].N == 1)
+	rt.Assert("c11-constant-stack-per-input-line", cl.MaxDepth-cl.MinDepth < 20)
+	rs, ok := DecodeText(cl.Out)
+	rt.Assert("c11-last-command-still-answered", ok && len(rs) > 0 && len(rs[len(rs)-1].Line) > 7 && rs[len(rs)-1].Line[:7] == "VERSION")
+}
